@@ -46,6 +46,12 @@ class FaultSync(Suite):
                     f["at"] = rng.randint(1, 4 * nent + 6)
                 elif kind == "walk":
                     f["at"] = rng.randint(1, nent)
+                    if rng.random() < 0.6:
+                        # the failing entry is reported to the walk callback with an errno (as filepath.WalkDir reports a failing lstat /
+                        # readdir); half of the time a FilterFS (no patterns) sits between the source and the sender. None of these
+                        # errnos means "the entry vanished": the transfer has to fail
+                        f["errno"] = rng.choice(["ESTALE", "EIO", "EACCES"])
+                        stack_filter = rng.random() < 0.5
                 elif kind in ("hasher", "notify"):
                     f["at"] = rng.randint(1, nent)
                 elif kind == "read":
@@ -54,6 +60,8 @@ class FaultSync(Suite):
                     f["off"] = rng.choice([0, 1, e.get("size", 0) // 2, max(0, e.get("size", 0) - 1)])
                 ops.append({"op": "fault", "src": {"kind": "mem", "tree": tree}, "dst": dst, "fault": f,
                             "opt": {"notify": True, "cap": rng.choice([0, 1, 4, 32]), "seed": rng.randrange(1 << 30)}})
+                if f.get("errno") and stack_filter:
+                    ops[-1]["sfilter"] = {}
         return ops[:n]
 
     def prepare_model(self, ops, impl=None):
